@@ -200,6 +200,8 @@ class Bytes(Sort):
         arr = z3.Array(ctx.fresh_name(name), z3.IntSort(), z3.IntSort())
         n = ctx.fresh_int(name + "_len")
         ctx.assume(n >= self.minlen)
+        q = z3.Int(ctx.fresh_name("q"))
+        ctx.assume(z3.ForAll([q], z3.And(z3.Select(arr, q) >= 0, z3.Select(arr, q) < 256)))
         return SBytes.from_array(arr, n)
 
     def sample(self, rng):
@@ -224,6 +226,9 @@ class IntList(Sort):
         arr = z3.Array(ctx.fresh_name(name), z3.IntSort(), z3.IntSort())
         n = ctx.fresh_int(name + "_len")
         ctx.assume(n >= 0)
+        if self.elem:
+            q = z3.Int(ctx.fresh_name("q"))
+            ctx.assume(z3.ForAll([q], z3.And(z3.Select(arr, q) >= self.elem[0], z3.Select(arr, q) < self.elem[1])))
         return SList(arr, n, self.elem)
 
     def sample(self, rng):
